@@ -232,7 +232,12 @@ def gen_dfxp(rng, tag, text=None, nlang=None):
                 attr = ' '.join(reversed(attr.split(' ')))
             empty = rng.random() < 0.06 and n > 1
             lines = [] if empty else (text or inline.plain_lines)(rng, f'{tag}.{li}.{i}', 'dfxp')
-            body = '<br/>'.join(inline.render(ln, 'dfxp', rng) for ln in lines)
+            # a line break may sit alone inside a styled span, or have layout white space around it
+            br = rng.choice(['<br/>'] * 8 + ['<span tts:fontStyle="italic"><br/></span>', '<span tts:color="red"><br/></span>',
+                                             '<br />', '<span><br/></span>'])
+            if br != '<br/>':
+                feats.add('break-inside-a-span')
+            body = br.join(inline.render(ln, 'dfxp', rng) for ln in lines)
             doc += f'  <p {attr}>{body}</p>\n'
             if empty:
                 feats.add('empty-cue')
